@@ -40,7 +40,13 @@ def enumerate_faults(cols: dict, roots: list, types: dict) -> list:
     mx = max(pid)
     for c in fk:
         for i in range(n):
-            for val in ("max+1", "large", "-2"):
+            for val in ("max+1", "large", "-2", "min-1", "gap", "zero"):
+                if val == "min-1" and min(pid) < 1:
+                    continue
+                if val == "zero" and 0 in pid:
+                    continue
+                if val == "gap" and _gap_value(pid) is None:
+                    continue
                 faults.append({"cls": "F3", "col": c, "row": i, "val": val})
             faults.append({"cls": "F4", "col": c, "row": i})
     hh = cols["hh_id"]
@@ -66,7 +72,7 @@ def enumerate_faults(cols: dict, roots: list, types: dict) -> list:
             continue
         if t is int:
             for i in range(n):
-                for kind in ("frac", "near_plus", "near_minus", "nan"):
+                for kind in ("frac", "near_plus", "near_minus", "nan", "huge", "neg_huge", "inf"):
                     faults.append({"cls": "F9", "col": c, "row": i, "kind": kind})
             faults.append({"cls": "F9", "col": c, "kind": "object"})
         elif t is bool:
@@ -81,6 +87,16 @@ def enumerate_faults(cols: dict, roots: list, types: dict) -> list:
             faults.append({"cls": "F9", "col": c, "kind": "bool_for_float"})
             faults.append({"cls": "F9", "col": c, "kind": "object"})
     return faults
+
+
+def _gap_value(pid):
+    """An unused identifier strictly between min(p_id) and max(p_id), if any."""
+    used = set(int(x) for x in pid)
+    lo, hi = min(used), max(used)
+    for v in range(lo + 1, hi):
+        if v not in used:
+            return v
+    return None
 
 
 def apply_fault(df, fault: dict, types: dict):
@@ -101,9 +117,22 @@ def apply_fault(df, fault: dict, types: dict):
         if cls == "F4":
             v = int(df["p_id"].iloc[i])
         else:
-            v = {"max+1": int(df["p_id"].max()) + 1, "large": 987654, "-2": -2}[fault["val"]]
-            while fault["val"] != "-2" and v in set(df["p_id"]):
-                v += 1
+            if fault["val"] == "gap":
+                v = _gap_value(df["p_id"].tolist())
+                if v is None:
+                    return None
+            elif fault["val"] == "min-1":
+                v = int(df["p_id"].min()) - 1
+                if v < 0:
+                    return None
+            elif fault["val"] == "zero":
+                v = 0
+                if 0 in set(df["p_id"]):
+                    return None
+            else:
+                v = {"max+1": int(df["p_id"].max()) + 1, "large": 987654, "-2": -2}[fault["val"]]
+                while fault["val"] != "-2" and v in set(df["p_id"]):
+                    v += 1
         df.iloc[i, df.columns.get_loc(c)] = v
         return df
     if cls == "F5":
@@ -133,6 +162,11 @@ def apply_fault(df, fault: dict, types: dict):
             df[c] = df[c].astype(object)
         elif kind == "bool_for_float":
             df[c] = v != 0
+        elif kind in ("huge", "neg_huge", "inf"):
+            # integral (or infinite) float values outside the int64 range
+            x = v.astype(np.float64)
+            x[i] = {"huge": 2.0**63, "neg_huge": -1e19, "inf": np.inf}[kind]
+            df[c] = x
         elif kind in ("frac", "near_plus", "near_minus", "nan"):
             x = v.astype(np.float64)
             x[i] = {"frac": x[i] + 0.5, "near_plus": x[i] + 1e-9 * max(1.0, abs(x[i])), "near_minus": x[i] - 1e-9 * max(1.0, abs(x[i])), "nan": np.nan}[kind]
@@ -206,10 +240,24 @@ def apply_variant(df, variant):
 # ------------------------------------------------------------------ oracle
 
 
-def judge_fault(df, fault, params, functions, types, form="frame"):
+def judge_fault(df, fault, params, functions, types, form="frame", live=None):
+    """form: 'frame' (fresh corrupted copy), 'dict' (dict of Series), or 'inplace': the
+    corruption is written into a long-lived DataFrame object that was simulated
+    successfully before (a fault at a particular point of a sequence of calls) and is
+    undone afterwards."""
     bad = apply_fault(df, fault, types)
     if bad is None:
         return "inapplicable", None
+    if form == "inplace" and live is not None and list(bad.columns) == list(df.columns) and len(bad) == len(df):
+        changed = [c for c in df.columns if str(bad[c].dtype) != str(df[c].dtype) or not bad[c].equals(df[c])]
+        for c in changed:
+            live[c] = bad[c].to_numpy()
+        try:
+            res = compare.run_call(live, params, functions)
+        finally:
+            for c in changed:
+                live[c] = df[c].to_numpy()
+        return ("rejected", res[1]) if res[0] == "exc" else ("ACCEPTED", None)
     data = bad
     if form == "dict" and fault["cls"] != "F8":
         data = {c: bad[c] for c in bad.columns}
@@ -246,7 +294,7 @@ def judge_variant(df, variant, base_res, params, functions):
 
 def _base_population(r, year, stat, rows, params, functions, types):
     for _ in range(12):
-        pop = popgen.generate(r.randrange(1 << 30), year, min_rows=rows[0], max_rows=r.randint(*rows), stat_values=stat, id_mode=r.choice(["dense", "sparse_sorted", "sparse_shuffled"]))
+        pop = popgen.generate(r.randrange(1 << 30), year, min_rows=rows[0], max_rows=r.randint(*rows), stat_values=stat, id_mode=r.choice(["dense", "offset", "sparse_sorted", "sparse_shuffled"]))
         df = popgen.to_frame(pop, types=types)
         res = compare.run_call(df, params, functions)
         if res[0] == "frame":
@@ -294,9 +342,14 @@ def explore(run_seed: int, cfg: dict) -> dict:
         chosen += r.sample(rest, min(len(rest), cfg.get("extra", 10)))
     pid = cols["p_id"]
     roles = _row_roles(cols)
+    live = df.copy()
+    compare.run_call(live, params, functions)  # the long-lived table has been simulated once
     for f in chosen:
-        form = "dict" if (r.random() < 0.25 and not cfg.get("exhaustive")) else "frame"
-        verdict, exc = judge_fault(df, f, params, functions, types, form)
+        u = r.random()
+        form = "frame"
+        if not cfg.get("exhaustive"):
+            form = "dict" if u < 0.2 else "inplace" if u < 0.45 and f["cls"] not in ("F1", "F7", "F8") else "frame"
+        verdict, exc = judge_fault(df, f, params, functions, types, form, live)
         if verdict == "inapplicable":
             out["inapplicable"] += 1
             continue
@@ -311,6 +364,16 @@ def explore(run_seed: int, cfg: dict) -> dict:
                 out["samples"].append({"date": date, "fault": f, "p_id_of_row": pid[f["row"]] if "row" in f else None, "form": form, "outcome": f"raised {exc}"})
         else:
             out["violations"].append(_minimise_fault({"date": date, "cols": cols, "faults": [f], "form": form, "kind": "accepted"}, params, functions, types))
+    if cfg.get("exhaustive"):
+        for f in space:
+            if f["cls"] in ("F2", "F3", "F4", "F5", "F6"):
+                verdict, exc = judge_fault(df, f, params, functions, types, "inplace", live)
+                if verdict == "inapplicable":
+                    continue
+                out["evaluated"] += 1
+                out["by_class"][f["cls"] + ":inplace"] = out["by_class"].get(f["cls"] + ":inplace", 0) + 1
+                if verdict != "rejected":
+                    out["violations"].append(_minimise_fault({"date": date, "cols": cols, "faults": [f], "form": "inplace", "kind": "accepted"}, params, functions, types))
     # pairs of faults (both must be individually applicable)
     for _ in range(cfg.get("pairs", 4)):
         f1, f2 = r.sample(space, 2)
@@ -371,6 +434,13 @@ def _minimise_fault(case, params, functions, types):
     """Shrink an accepted-fault case: fewer faults, fewer persons."""
     def accepted(c):
         df = popgen.to_frame({"cols": c["cols"]}, types=types)
+        if c.get("form") == "inplace":
+            live = df.copy()
+            compare.run_call(live, params, functions)
+            try:
+                return judge_fault(df, c["faults"][0], params, functions, types, "inplace", live)[0] == "ACCEPTED"
+            except Exception:  # noqa: BLE001
+                return False
         bad = df
         for f in c["faults"]:
             bad = apply_fault(bad, f, types)
@@ -389,7 +459,7 @@ def _minimise_fault(case, params, functions, types):
             if accepted(c):
                 cur = c
                 break
-    if cur.get("form") == "dict" and accepted({**cur, "form": "frame"}):
+    if cur.get("form") in ("dict", "inplace") and accepted({**cur, "form": "frame"}):
         cur = {**cur, "form": "frame"}
     # drop persons not touched by a fault row
     from sim.c01 import drop_rows
@@ -412,7 +482,7 @@ def _minimise_fault(case, params, functions, types):
                 changed = True
                 break
     f0 = cur["faults"][0]
-    cur["key"] = {"kind": "accepted", "cls": f0["cls"], "fault_kind": f0.get("kind", f0.get("val", f0.get("dir", ""))), "n_faults": len(cur["faults"])}
+    cur["key"] = {"kind": "accepted", "form": cur.get("form", "frame") if cur.get("form") == "inplace" else "fresh", "cls": f0["cls"], "fault_kind": f0.get("kind", f0.get("val", f0.get("dir", ""))), "n_faults": len(cur["faults"])}
     return cur
 
 
@@ -423,6 +493,11 @@ def replay_case(case: dict) -> dict:
     params, functions = set_up_policy_environment(case["date"])
     types = popgen.input_types()
     df = popgen.to_frame({"cols": case["cols"]}, types=types)
+    if case["kind"] == "accepted" and case.get("form") == "inplace":
+        live = df.copy()
+        first = compare.run_call(live, params, functions)
+        verdict, exc = judge_fault(df, case["faults"][0], params, functions, types, "inplace", live)
+        return {"violated": verdict == "ACCEPTED", "outcome": f"first call {first[0]}; faulted call {verdict} {exc or ''}"}
     if case["kind"] == "accepted":
         bad = df
         for f in case["faults"]:
